@@ -15,21 +15,23 @@
 EXTENDS Integers, Sequences, TLC
 
 CONSTANTS Shared,      \* TRUE: the code as it is; FALSE: argument vector copied per call
-          Form,        \* argument vector of the registered command: sequence over {ArgIn, ArgOut, ArgLit} ("$in", "$out", any other argument), each marker at most once
+          Forms,       \* argument vectors explored: sequences over {ArgIn, ArgOut, ArgLit} ("$in", "$out", any other
+                       \* argument), each marker at most once
           MaxCalls
 
 ArgIn == -1  ArgOut == -2  ArgLit == 0      \* markers; positive numbers are temp file names
 
-VARIABLES regArgs,     \* the registered command's argument vector (backing array)
+VARIABLES form,        \* the argument vector as registered (never changes; the command script knows it by position)
+          regArgs,     \* the registered command's argument vector (backing array)
           files,       \* temp files: sequence of contents (index = file name)
           results      \* per call: [inp, out]
-vars == <<regArgs, files, results>>
+vars == <<form, regArgs, files, results>>
 
-Init == regArgs = Form /\ files = <<>> /\ results = <<>>
+Init == form \in Forms /\ regArgs = form /\ files = <<>> /\ results = <<>>
 
 \* the command itself (e.g. sh -c 'cat "$0" > "$1"' $in $out) takes its file names by argument POSITION:
 \* where the registered form says $in it reads the file named there, where it says $out it writes there
-Pos(what) == IF \E i \in DOMAIN Form : Form[i] = what THEN CHOOSE i \in DOMAIN Form : Form[i] = what ELSE 0
+Pos(what) == IF \E i \in DOMAIN form : form[i] = what THEN CHOOSE i \in DOMAIN form : form[i] = what ELSE 0
 
 Call(inp) ==
   /\ Len(results) < MaxCalls
@@ -45,14 +47,14 @@ Call(inp) ==
          files3  == IF Pos(ArgOut) # 0 THEN [files2 EXCEPT ![args1[Pos(ArgOut)]] = data] ELSE files2
          stdout  == IF Pos(ArgOut) # 0 THEN <<>> ELSE data
          written == IF subOut THEN files3[outFile] ELSE stdout     \* defer io.Copy(w, out); otherwise cmd.Stdout = w
-     IN /\ files' = files3
+     IN /\ form' = form
+        /\ files' = files3
         /\ results' = Append(results, [inp |-> inp, out |-> written])
         /\ regArgs' = IF Shared THEN args1 ELSE regArgs            \* cmd.Args[i] = ... writes through the shared array
 Next == \E inp \in {<<1>>, <<2>>, <<3>>} : Call(inp)
 Spec == Init /\ [][Next]_vars
 
-FormInOut == <<ArgLit, ArgIn, ArgOut>>
-FormIn == <<ArgLit, ArgIn>>
-FormStd == <<ArgLit>>
+AllForms == {<<ArgLit, ArgIn, ArgOut>>, <<ArgLit, ArgIn>>, <<ArgLit, ArgOut>>, <<ArgLit>>, <<ArgOut, ArgLit, ArgIn>>}
+TempFileForms == AllForms \ {<<ArgLit>>}
 EachCallOwnInput == \A k \in DOMAIN results : results[k].out = results[k].inp
 =============================================================================
